@@ -2,6 +2,7 @@ package eval
 
 import (
 	"fmt"
+	"strings"
 	"ti/base"
 	"ti/context"
 	"ti/parser"
@@ -155,6 +156,10 @@ func (d *Def) makeDefineArgVariables(
 		argT, err := p.Read()
 		if err != nil {
 			return argVariables, false, err
+		}
+
+		if argT == nil {
+			return argVariables, false, nil
 		}
 
 		if argT.IsTargetIdentifier("end") {
@@ -690,7 +695,7 @@ func (d *Def) Evaluation(
 	methodT := d.makeDefineMethodT(p, ctx, method, args, returnT, isBlockGiven)
 
 	// def hoge= || def [] || def []=
-	if method[len(method)-1] == '=' || method == "[]" || method == "[]=" {
+	if strings.HasSuffix(method, "=") || method == "[]" {
 		for _, arg := range args {
 			base.SetValueT(
 				methodT.DefinedFrame,
